@@ -16,9 +16,6 @@ import RdfModel.Props.C14
 #print axioms RdfModel.C14.mapper_fresh
 #print axioms RdfModel.C14.runRefs_sound
 #print axioms RdfModel.C14.driverU_injective
-#print axioms RdfModel.C14.all_ops_atomic
-#print axioms RdfModel.C14.methods_as_expected
-#print axioms RdfModel.C14.maps_have_mutex
 #print axioms RdfModel.C14.passthrough_collision
 #print axioms RdfModel.C14.passthrough_injective_full_false
 #print axioms RdfModel.C14.d15_old_code_unstable
